@@ -40,6 +40,7 @@ var mutKinds = []mutKind{
 	{"failSafe", true, []string{"safe msg"}},
 	{"failWrapped", true, []string{"wrapped msg"}},
 	{"failPanic", true, []string{"Internal server error"}},
+	{"failHidden", true, []string{"Internal server error"}},
 	{"okObj { id failInner }", true, []string{"Internal server error"}},
 	{"okObj { id safeInner }", true, []string{"inner safe msg"}},
 	{"okObj { safeInner failInner }", true, []string{"inner safe msg", "Internal server error"}},
@@ -62,6 +63,9 @@ func mutationSchema() *graphql.Schema {
 		return 0, graphql.WrapAsSafeError(errors.New("wrapped inner "+mutSecret), "wrapped msg")
 	})
 	m.FieldFunc("failPanic", func() (int64, error) { panic("panic " + mutSecret) })
+	m.FieldFunc("failHidden", func() (int64, error) {
+		return 0, fmt.Errorf("outer %s: %w", mutSecret, graphql.NewSafeError("hidden safe msg"))
+	})
 	return s.MustBuild()
 }
 
